@@ -491,7 +491,11 @@ func (c *handlerCtx) handleCall() {
 				if c.stat.OK() {
 					c.stat = statInternalServerError.Copy(p)
 				}
-				c.writeReply(c.stat)
+				if stat := c.writeReply(c.stat); !stat.OK() && stat.Code() != CodeConnClosed {
+					// e.g. the reply context has expired meanwhile: the error reply goes out without a deadline
+					socket.WithContext(nil)(c.output)
+					c.writeReply(c.stat)
+				}
 			}
 		}
 		c.recordCost()
@@ -539,7 +543,15 @@ func (c *handlerCtx) handleCall() {
 			c.stat = stat
 		}
 		if stat.Code() != CodeConnClosed {
-			c.writeReply(statInternalServerError.Copy(stat.Cause()))
+			errStat := statInternalServerError
+			if deadline, ok := c.Context().Deadline(); ok && !time.Now().Before(deadline) {
+				// the handler outlived the context age
+				errStat = statHandleTimeout
+			}
+			// the error reply is not bound to the reply context, which may have expired
+			// and would refuse this write as well
+			socket.WithContext(nil)(c.output)
+			c.writeReply(errStat.Copy(stat.Cause()))
 		}
 		return
 	}
